@@ -20,6 +20,7 @@ statement on a concrete input (the same inputs are in corpus/C17/).
 -/
 import TxdbusModel.Obj.PropsRefine
 import TxdbusModel.Proofs.Obj.PropsGetAll
+import TxdbusModel.Proofs.Obj.PropsFamily
 
 namespace Txdbus.Properties.C17
 open Txdbus.Obj.Props Txdbus.Obj.PropsSpec
@@ -244,6 +245,117 @@ theorem original_set_wrong_type_then_get_fails :
       (.get 0 sA sBC)).2 = [.err .value] := by
   decide
 
+/-! ### 5. class families: objects of several classes of one chain alive together (Obj/PropsFamily.lean)
+
+The class-level state of the code (one interface cache per class, built by whichever instance walks it first;
+the `DBusProperty` objects of a class are shared by all its subclasses) is explicit in `FSt` and shared by the
+whole history.  `stable D`: every class of the chain can bind its own `DBusProperty` objects, and every class
+derived from it binds them to the same declaration.  Then, for ALL well-formed family histories (instances of
+any classes of the chain, created and used in any order): -/
+
+/-- What an object answers depends only on the chain of ITS class and on the operations applied to IT: the
+outputs of its operations inside any family history are the outputs of the one-chain model `Props.step` for
+`D.drop k` (its own class and that class's bases) on its own operations alone - whatever was done, before or in
+between, to objects of other classes of the family, and whichever instance built the shared class caches. -/
+theorem family_object_independent {D : Decls} (hS : stable D = true) (cfg : Cfg) (h : List FOp)
+    (hwf : wf D [] h = true) (o k : Nat) (hk : classIn o h = some k) :
+    ∃ W, elaborate (D.drop k) = some W ∧
+      projOuts o (ftrace cfg D (FSt.init D) h) = Obj.Props.trace cfg W St.init (projOps o h) :=
+  family_proj hS cfg h hwf o k hk
+
+/-- ... so every theorem above holds for every object of a family, read against the declarations of its own
+class.  Spelled out for Get: after any family history, Get of a property that the object's own class chain
+declares readable, last written (on THIS object) with a value of the declared type, answers that value, typed
+as declared - e.g. although an object of a base class was asked for the same pair before and rightly answered
+an error. -/
+theorem family_get_returns_last_write {D : Decls} (hS : stable D = true) {cfg : Cfg} (hc : cfg.Sound)
+    (h : List FOp) (o k : Nat) (i p : Str)
+    (hwf : wf D [] (h ++ [.op (.get o i p)]) = true) (hk : classIn o h = some k)
+    {W : World} (hW : elaborate (D.drop k) = some W) (hA : AttrConsistent W) (hM : Modelled W)
+    (hg : GoodHist (projOps o h)) (hi : i ≠ [])
+    (ho : (specRun cfg W (projOps o h)).attached o = true)
+    {sp : SProp} (hsp : (sdeclOf W).find i p = some sp) (hr : sp.readable = true)
+    {v : PVal} (hv : (specRun cfg W (projOps o h)).val o i p = some v)
+    (ht : HasTypeSig sp.sig v = true) :
+    ∃ sg, (projOuts o (ftrace cfg D (FSt.init D) (h ++ [.op (.get o i p)]))).getLast? =
+        some [.retV sg v.plain] ∧ (IsBasic sp.sig = true → sg = sp.sig) := by
+  obtain ⟨W', hW', hp⟩ := family_proj hS cfg _ hwf o k (classIn_append _ hk)
+  have : W' = W := Option.some.inj (hW'.symm.trans hW)
+  subst this
+  obtain ⟨sg, hstep, hb⟩ := get_returns_last_write hW hA hM hc hg o i p hi ho hsp hr hv ht
+  refine ⟨sg, ?_, hb⟩
+  rw [hp, projOps_snoc o (.get o i p) rfl, trace_snoc]
+  have : (step cfg W' (Obj.Props.runFrom cfg W' St.init (projOps o h)) (.get o i p)).2 =
+      [.retV sg v.plain] := by
+    have := congrArg Prod.snd hstep
+    simpa [Obj.Props.run] using this
+  simp [this]
+
+/-- The demonstration family: Base declares (org.demo.Base, Name); Derived(Base) adds (org.demo.Ext, Level). -/
+def famDecls : Decls :=
+  [ { ifaces := [⟨"org.demo.Ext".toList, [("Level".toList, ⟨"Level".toList, ['i'], .readwrite, .no⟩)]⟩],
+      descs := [⟨"level".toList, "Level".toList, none⟩] },
+    { ifaces := [⟨"org.demo.Base".toList, [("Name".toList, ⟨"Name".toList, ['s'], .readwrite, .no⟩)]⟩],
+      descs := [⟨"name".toList, "Name".toList, some "org.demo.Base".toList⟩] } ]
+
+theorem famDecls_stable : stable famDecls = true := by decide
+
+/-- Object 0 of the base class (level 1) and object 1 of the derived class (level 0); the base object is asked
+first for the pair only the derived class declares. -/
+def famHist : List FOp :=
+  [.new 0 1, .op (.assign 0 "name".toList (.str ['b'])), .op (.export 0),
+   .new 1 0, .op (.assign 1 "name".toList (.str ['d'])), .op (.assign 1 "level".toList (.int 7)),
+   .op (.export 1),
+   .op (.get 0 "org.demo.Ext".toList "Level".toList), .op (.get 1 "org.demo.Ext".toList "Level".toList),
+   .op (.set 1 "org.demo.Ext".toList "Level".toList (.int 9)),
+   .op (.get 1 "org.demo.Ext".toList "Level".toList), .op (.getAll 0 "org.demo.Ext".toList)]
+
+theorem famHist_wf : wf famDecls [] famHist = true := by decide
+
+example :
+    projOuts 0 (ftrace Cfg.repaired famDecls (FSt.init famDecls) famHist) =
+      [[.done], [.done], [.err .unknownProp], [.err .unknownIface]] ∧
+    projOuts 1 (ftrace Cfg.repaired famDecls (FSt.init famDecls) famHist) =
+      [[.done], [.done], [.done], [.retV ['i'] (.int 7)], [.ret], [.retV ['i'] (.int 9)]] := by
+  decide
+
+def famWorld : World := (elaborate famDecls).getD ⟨[], [], []⟩
+
+/-- The hypotheses of `family_get_returns_last_write` are satisfiable: the derived-class object 1 after the
+first eight operations of `famHist` (the base-class object has just been asked for (org.demo.Ext, Level) and
+has answered an error). -/
+example : ∃ sg,
+    (projOuts 1 (ftrace Cfg.repaired famDecls (FSt.init famDecls)
+      (famHist.take 8 ++ [.op (.get 1 "org.demo.Ext".toList "Level".toList)]))).getLast? =
+        some [.retV sg (PVal.int 7).plain] ∧ (IsBasic ['i'] = true → sg = ['i']) :=
+  family_get_returns_last_write (D := famDecls) famDecls_stable repaired_sound (famHist.take 8) 1 0
+    "org.demo.Ext".toList "Level".toList (by decide) (by decide) (W := famWorld) (by decide)
+    (by unfold AttrConsistent; decide) (by unfold Modelled; decide) (by unfold GoodHist; decide) (by decide)
+    (by decide) (sp := ⟨"level".toList, "org.demo.Ext".toList, "Level".toList, ['i'], true, true, false⟩)
+    (by decide) rfl (v := .int 7) (by decide) (by decide)
+
+/-- Without `stable` the order of creation matters (the known finding sibling-classes-share-descriptor, here
+along one chain): the base class declares `xu = DBusProperty('Xu')` for its interface org.zz.Base; the derived
+class lists an interface org.aa.First that has a property `Xu` too.  When the base-class object walks the
+class caches first, its Get(org.zz.Base, Xu) answers the value; when a derived-class object was created first,
+the shared descriptor is bound to org.aa.First and the same Get on the same base-class object answers an
+error. -/
+def unstableDecls : Decls :=
+  [ { ifaces := [⟨"org.aa.First".toList, [("Xu".toList, ⟨"Xu".toList, ['s'], .readwrite, .no⟩)]⟩],
+      descs := [] },
+    { ifaces := [⟨"org.zz.Base".toList, [("Xu".toList, ⟨"Xu".toList, ['i'], .readwrite, .no⟩)]⟩],
+      descs := [⟨"xu".toList, "Xu".toList, none⟩] } ]
+
+theorem unstable_family_order_matters :
+    stable unstableDecls = false ∧
+    projOuts 0 (ftrace Cfg.repaired unstableDecls (FSt.init unstableDecls)
+      [.new 0 1, .new 1 0, .op (.assign 0 "xu".toList (.int 5)), .op (.export 0),
+       .op (.get 0 "org.zz.Base".toList "Xu".toList)]) = [[.done], [.done], [.retV ['i'] (.int 5)]] ∧
+    projOuts 0 (ftrace Cfg.repaired unstableDecls (FSt.init unstableDecls)
+      [.new 1 0, .new 0 1, .op (.assign 0 "xu".toList (.int 5)), .op (.export 0),
+       .op (.get 0 "org.zz.Base".toList "Xu".toList)]) = [[.done], [.done], [.err .unknownProp]] := by
+  decide
+
 end Txdbus.Properties.C17
 
 #print axioms Txdbus.Properties.C17.keyPair_injective
@@ -267,3 +379,8 @@ end Txdbus.Properties.C17
 #print axioms Txdbus.Properties.C17.original_getall_misses_base_class
 #print axioms Txdbus.Properties.C17.original_getall_unknown_interface_empty
 #print axioms Txdbus.Properties.C17.original_set_wrong_type_then_get_fails
+#print axioms Txdbus.Properties.C17.family_object_independent
+#print axioms Txdbus.Properties.C17.family_get_returns_last_write
+#print axioms Txdbus.Properties.C17.famDecls_stable
+#print axioms Txdbus.Properties.C17.famHist_wf
+#print axioms Txdbus.Properties.C17.unstable_family_order_matters
